@@ -56,6 +56,43 @@ fn decode(bytes: &[u8]) -> Value {
     }
 }
 
+/// A frame (address, type, data) whose length + address bytes + type + data bytes add up to exactly `total` (None when no
+/// frame can): every checksum implementation folds these bytes, and narrower accumulators break at particular totals.
+pub fn frame_with_total(total: u32, rng: &mut StdRng) -> Option<(u16, u8, Vec<u8>)> {
+    for n in 0..=255u32 {
+        if total < n || total - n > 255 * (n + 3) {
+            continue;
+        }
+        // spread total - n over the n + 3 byte slots, each 0..=255, with some randomness in the order
+        let slots = (n + 3) as usize;
+        let mut v = vec![0u32; slots];
+        let mut rest = total - n;
+        let start = rng.gen_range(0..slots);
+        for k in 0..slots {
+            let i = (start + k) % slots;
+            let take = rest.min(255);
+            v[i] = take;
+            rest -= take;
+        }
+        let addr = ((v[0] as u16) << 8) | v[1] as u16;
+        return Some((addr, v[2] as u8, v[3..].iter().map(|x| *x as u8).collect()));
+    }
+    None
+}
+
+/// Byte totals at which narrow or signed accumulators misbehave: powers of two and their neighbours, up to the maximum 66045.
+pub fn special_totals() -> Vec<u32> {
+    let mut t = vec![0u32, 1, 66045, 66044, 65791, 65790, 65792];
+    for p in 7..=16u32 {
+        for d in [-1i64, 0, 1] {
+            t.push(((1i64 << p) + d) as u32);
+        }
+    }
+    t.push(0x8000 + 0x100);
+    t.push(0xFF00);
+    t
+}
+
 fn frame_event(addr: u16, ty: u8, data: &[u8], owned: bool) -> Value {
     // a panic anywhere in the codec is data: the event then carries empty encodings and result kind "panic"
     match catch(|| frame_event_inner(addr, ty, data, owned)) {
@@ -151,6 +188,14 @@ pub fn record_c01(a: &Args) -> usize {
         for &len in &[254usize, 255] {
             emit(&mut out, frame_event(0xFFFF, 0xFF, &vec![b; len], true));
             emit(&mut out, frame_event(0, 0, &vec![b; len], false));
+        }
+    }
+    // frames whose bytes add up to special totals (powers of two and their neighbours up to the maximum)
+    for total in special_totals() {
+        for rep in 0..2 {
+            if let Some((addr, ty, data)) = frame_with_total(total, &mut rng) {
+                emit(&mut out, frame_event(addr, ty, &data, rep == 0));
+            }
         }
     }
     // over-long lines decode to an error, never to a frame with more than 255 data bytes
@@ -467,7 +512,19 @@ pub fn record_c03(a: &Args) -> usize {
         }
     }
     // over-long lines: more than 255 data pairs whose length field is the count modulo 256 and whose checksum is right
-    for count in [256usize, 257, 300, 511, 512, 513, 1000] {
+    let long_counts: Vec<usize> = if thorough { vec![256, 257, 300, 511, 512, 513, 1000, 2042, 2043, 2048, 4096, 8192, 32768, 40000] } else { vec![256, 257, 300, 511, 512, 513, 1000, 2042, 2043, 2048, 5000] };
+    for total in special_totals() {
+        if let Some((addr, ty, data)) = frame_with_total(total, &mut rng) {
+            let good = seed_encoding(addr, ty, &data, total % 2 == 0);
+            out.emit(decode_event(&good));
+            let mut bad = good.clone();
+            let k = bad.len() - if total % 2 == 0 { 3 } else { 1 };
+            bad[k] = if bad[k] == b'7' { b'8' } else { b'7' };
+            out.emit(decode_event(&bad));
+            n += 2;
+        }
+    }
+    for count in long_counts {
         let mut payload = vec![(count % 256) as u8, 0x00, 0x02, 0x00];
         payload.extend((0..count).map(|i| (i * 3) as u8));
         let sum = payload.iter().fold(0u8, |a, &b| a.wrapping_add(b));
@@ -626,6 +683,26 @@ pub fn record_c04(a: &Args) -> usize {
                 d[0] = code[0];
                 emit(&mut out, f2m_event(rng.r#gen(), ty, &d, len % 2 == 0));
             }
+        }
+    }
+    // every table entry's code followed by bytes a careless parser might strip or ignore (line terminators, NUL, blanks, the
+    // code again): two- and three-byte payloads are never the one-byte message
+    for (ty, code) in codes.iter().filter(|(_, d)| d.len() <= 1) {
+        for tail in [&[0x0Du8, 0x0A][..], &[0x0A], &[0x0D], &[0x00], &[0x20], &[0xFF], &[0x0A, 0x0D], &[0x00, 0x00], &[0x0D, 0x0A, 0x00], &[0x20, 0x20]] {
+            let mut d = code.clone();
+            d.extend_from_slice(tail);
+            emit(&mut out, f2m_event(rng.r#gen(), *ty, &d, true));
+            if let Some(c) = code.first() {
+                let mut d2 = vec![*c, *c];
+                d2.extend_from_slice(tail);
+                emit(&mut out, f2m_event(rng.r#gen(), *ty, &d2, false));
+            }
+        }
+    }
+    // SendData at unaligned offsets with payloads that look like page headers / configuration blocks
+    for off in [0x25u16, 0x0001, 0x000F, 0x0011, 0xFFFF, 0x1234] {
+        for d in [&[1u8, 0x10, 0, 0][..], &[0xFF, 0x10, 0, 0, 0, 0], &[4, 0x20, 0, 6, 7, 30, 30, 30, 0, 8, 0, 0, 0, 0, 0, 0], &[0, 0x10, 0, 0, 0xFF, 0xFF, 0xFF, 0xFF, 0xFF, 0xFF, 0xFF, 0xFF, 0xFF, 0xFF, 0xFF, 0xFF]] {
+            emit(&mut out, f2m_event(off, 0, d, true));
         }
     }
     // payloads that look like protocol data themselves: the ASCII of an encoded frame, a configuration block, a page header
